@@ -233,6 +233,10 @@ def evaluate(case: Dict[str, Any], base: Any, ctx: Any = None) -> List[Tuple[str
                     fails.append((f"validator-raises:{type(e).__name__}", runner.exc_text(e)))
                     continue
                 if still_valid:
+                    if name in ("misplaced-element", "removed-required-element") and c13._is_diamond(spec, neutral["cls"]):
+                        # the XSD of a class with diamond inheritance refers to the common ancestor's group twice
+                        # (recorded under C13): its elements are admitted at two places of the sequence
+                        name += ":class-with-diamond-inheritance-gets-the-common-ancestor-group-twice"
                     fails.append((f"violating-edit-accepted:{name}",
                                   f"edited={exml[:800]}\noriginal={xml[:800]}\ninstance={neutral!r}\n{p.text[-1800:]}"))
     return fails
